@@ -62,7 +62,7 @@ def inert_element(rng, spec):
     g = spec['grid']; f = gen.UNIT_F[g['unit']]
     sp = copy.deepcopy(spec)
     nodes = sorted({n for a in spec['assets'] for n in (a.get('nodes') or [])})
-    kind = gen.pick(rng, ['contract', 'simplecontract', 'transport', 'storage', 'multi', 'orderbook', 'take', 'coarse', 'plant', 'scaled', 'exttransport'])
+    kind = gen.pick(rng, ['contract', 'simplecontract', 'transport', 'storage', 'multi', 'orderbook', 'take', 'take', 'take', 'coarse', 'plant', 'scaled', 'exttransport'])
     s, e, place = outside_window(rng, g)
     name = 'inert'
     a = None
@@ -99,11 +99,14 @@ def inert_element(rng, spec):
     elif kind == 'take':
         cands = [x for x in sp['assets'] if x['type'] in ('Contract', 'ExtendedTransport', 'MultiCommodityContract') and s is not None and e is not None and s != e]
         if cands:
-            x = gen.pick(rng, cands)
-            key = gen.pick(rng, ['min_take', 'max_take'])
+            with_take = [x for x in cands if x.get('min_take') or x.get('max_take')]
+            x = gen.pick(rng, with_take or cands)
+            key = gen.pick(rng, [k for k in ('min_take', 'max_take') if x.get(k)] or ['min_take', 'max_take'])      # preferably next to an existing period
             sign = 1. if x['type'] == 'ExtendedTransport' else (-1. if key == 'min_take' else 1.)
             tk = x.get(key) or {'start': [], 'end': [], 'values': []}
-            tk = {'start': list(tk['start']) + [s], 'end': list(tk['end']) + [e], 'values': list(tk['values']) + [sign * 3.]}
+            pos_ = int(rng.integers(0, len(tk['start']) + 1))        # listed before, between or after the existing periods (lists need not be in time order)
+            tk = {'start': list(tk['start'][:pos_]) + [s] + list(tk['start'][pos_:]), 'end': list(tk['end'][:pos_]) + [e] + list(tk['end'][pos_:]),
+                  'values': list(tk['values'][:pos_]) + [sign * 3.] + list(tk['values'][pos_:])}
             x[key] = tk
             return sp, 'take_period_' + place, None
     if a is None:
